@@ -49,6 +49,36 @@ NAV_KEYS = ["left", "right", "up", "down", "home", "end", "backspace", "delete",
 UNUSED_KEYS = ["f1", "page up"]
 PREF_KEYS = ["up", "down", "left", "a", "delete", "f1"]
 NUM_KEYS = ["0", "5", "-", ".", ",", "a", "g", "left", "right", "home", "end", "backspace", "delete", "up", "down", "f1"]
+# Characters that are NOT in any numeric alphabet although some str method / conversion of Python says
+# "digit", "number" or "the same letter" -- one or more per Unicode category / pitfall:
+FOREIGN_KEYS = [
+    "\u0663",  # Nd ARABIC-INDIC DIGIT THREE: isdecimal/isdigit/isnumeric, int() accepts it
+    "\uff17",  # Nd FULLWIDTH DIGIT SEVEN (two columns)
+    "\u096b",  # Nd DEVANAGARI DIGIT FIVE
+    "\u00b2",  # No SUPERSCRIPT TWO: isdigit, not isdecimal (int() raises)
+    "\u2460",  # No CIRCLED DIGIT ONE: isdigit
+    "\u00bd",  # No VULGAR FRACTION ONE HALF: isnumeric only
+    "\u2167",  # Nl ROMAN NUMERAL EIGHT: isnumeric only
+    "\u4e09",  # Lo CJK three: isnumeric only, two columns
+    "\u0131",  # Ll DOTLESS I: upper() == 'I'
+    "\u017f",  # Ll LONG S: upper() == 'S', casefold() == 's'
+    "\ufb06",  # Ll LIGATURE ST: upper() == 'ST' (a substring of the digit string of base >= 30)
+    "\u212a",  # Lu KELVIN SIGN: lower() == 'k'
+    "\uff21",  # Lu FULLWIDTH A
+    "\u00e9",  # Ll e with acute: isalnum
+    "\uff0e",  # Po FULLWIDTH FULL STOP
+    "\u066b",  # Po ARABIC DECIMAL SEPARATOR
+    "\uff0c",  # Po FULLWIDTH COMMA
+    "\u2212",  # Sm MINUS SIGN
+    "\uff0d",  # Pd FULLWIDTH HYPHEN-MINUS
+    "\u00ad",  # Cf SOFT HYPHEN (zero width)
+    "\u0301",  # Mn COMBINING ACUTE (zero width)
+]
+# ASCII characters that int() / float() / Decimal() tolerate inside a number, or that are digits of another
+# base; each is offered to a numeric widget only when it is outside that widget's alphabet (so that the
+# state space does not grow), as are the FOREIGN_KEYS; "12" is a key name of two digits (not a character).
+ASCII_EXTRA_KEYS = ["9", "f", "F", "z", "Z", "_", " ", "+", "e", "x", "/", ":", "@", "`", "{"]
+MULTI_KEYS = ["12"]
 DIGITS36 = "0123456789ABCDEFGHIJKLMNOPQRSTUVWXYZ"
 # reporting caps (raise via the environment when triaging, to see every failure of a run)
 CAP_PER_CLASS = int(os.environ.get("C10_CAP_PER_CLASS", "3"))
@@ -89,6 +119,18 @@ def allowed_alphabet(cfg):
     if k == "floatedit":
         return set("0123456789" + cfg["sep"]), cfg["neg"]
     return None, False
+
+
+def in_alphabet(cfg, ch):
+    """may the widget of this configuration ever hold the character `ch`?  (the sign: only when allowed)"""
+    allowed, neg = allowed_alphabet(cfg)
+    return ch in allowed or (neg and ch == "-")
+
+
+def numeric_keys(cfg):
+    """event alphabet of one numeric configuration: the common keys plus every foreign / extra character that
+    is outside this configuration's alphabet"""
+    return NUM_KEYS + [k for k in FOREIGN_KEYS + ASCII_EXTRA_KEYS if not in_alphabet(cfg, k)] + MULTI_KEYS
 
 
 def alphabet_ok(cfg, text):
@@ -313,12 +355,18 @@ def apply_and_check(w, ref, cfg, ev, log):
         accepted = None
         tab_n = None
         if cfg["kind"] != "edit" and printable:
-            accepted = ret is None
+            # a character of the alphabet may still be refused (second separator, digit before the sign, ...):
+            # there the widget decides.  A character outside the alphabet is a key the editor does not use:
+            # the reference refuses it whatever the widget did.
+            accepted = (ret is None) if in_alphabet(cfg, ev) else False
         if ev == "tab" and cfg["allow_tab"]:
             tab_n = len(after_text) - len(before_text)
         res = ref.step(ev, accepted, tab_n)
     exp_text = ref.value()
     obs["reference"] = [repr(exp_text), ref.offset(), repr(ref.prefs)]
+    if cfg["kind"] != "edit" and printable and not in_alphabet(cfg, ev) and ret is None:
+        # classification aid for the failure details (the verdicts below do not read it)
+        obs["outside_alphabet_key"] = f"U+{ord(ev):04X}"
 
     # ---- offset-valid
     idx = _index_of_offset(cfg, after_text, after_pos)
@@ -513,14 +561,16 @@ def record(tally, cfg, text0, pos0, path, ev, verdicts, obs):
     for clause, (ok, why, nt) in verdicts.items():
         def detail(clause=clause, why=why):
             # inner_clause / zero_width_at: top-level copies for the known-finding predicates
-            return {"clause": clause, "inner_clause": clause, "why": why, "cfg": cfg, "text0": text0, "pos0": pos0, "path": list(path), "event": ev, "obs": obs, "zero_width_at": list(obs.get("zero_width_at", [])), "class": ("zero-width-row|" if obs.get("zero_width_at") else "") + _why_class(clause, why, ev)}
+            oak = obs.get("outside_alphabet_key")
+            cls = f"accepted-outside-alphabet-key|{oak}" if oak else ("zero-width-row|" if obs.get("zero_width_at") else "") + _why_class(clause, why, ev)
+            return {"clause": clause, "inner_clause": clause, "why": why, "cfg": cfg, "text0": text0, "pos0": pos0, "path": list(path), "event": ev, "obs": obs, "zero_width_at": list(obs.get("zero_width_at", [])), "outside_alphabet_key": oak, "class": cls}
 
         tally.case(clause, ok, nt, detail, sample={"cfg": cfg, "text0": text0, "pos0": pos0, "path": list(path), "event": ev})
 
 
 def events_for(cfg, ref, full, clicks, pref_keys=None):
     if cfg["kind"] != "edit":
-        evs = list(NUM_KEYS)
+        evs = numeric_keys(cfg)
     elif full is True:
         evs = PRINT_KEYS + NAV_KEYS + UNUSED_KEYS
     elif full == "probe":
@@ -628,7 +678,7 @@ def random_task(args):
                 keys = PRINT_KEYS + NAV_KEYS + NAV_KEYS + UNUSED_KEYS
             else:
                 text0, pos0 = "", 0
-                keys = NUM_KEYS
+                keys = NUM_KEYS + NUM_KEYS + numeric_keys(cfg)
             events = []
             for _ in range(length):
                 if r.random() < 0.15:
@@ -639,7 +689,9 @@ def random_task(args):
 
             def detail(info=info, cfg=cfg, text0=text0, pos0=pos0, events=events):
                 zw = list((info.get("obs") or {}).get("zero_width_at", []))
-                return {"clause": "random-histories", "inner_clause": info.get("clause"), "event": info.get("event"), "why": f"step {info.get('step')}: [{info.get('clause')}] {info.get('why')}", "cfg": cfg, "text0": text0, "pos0": pos0, "events": events, "obs": info.get("obs"), "zero_width_at": zw, "class": ("zero-width-row|" if zw else "") + _why_class(info.get("clause", ""), str(info.get("why")), info.get("event"))}
+                oak = (info.get("obs") or {}).get("outside_alphabet_key")
+                cls = f"accepted-outside-alphabet-key|{oak}" if oak else ("zero-width-row|" if zw else "") + _why_class(info.get("clause", ""), str(info.get("why")), info.get("event"))
+                return {"clause": "random-histories", "inner_clause": info.get("clause"), "event": info.get("event"), "why": f"step {info.get('step')}: [{info.get('clause')}] {info.get('why')}", "cfg": cfg, "text0": text0, "pos0": pos0, "events": events, "obs": info.get("obs"), "zero_width_at": zw, "outside_alphabet_key": oak, "class": cls}
 
             tally.case("random-histories", ok, True, detail, sample={"cfg": cfg, "text0": text0, "pos0": pos0, "events": events})
     tally.cpu = time.process_time() - cpu0
@@ -650,14 +702,19 @@ def random_task(args):
 # numeric constructors
 def numeric_initial_cases():
     defaults_int = [None, "", 0, 7, -5, "0", "12", "007", Decimal("12"), Decimal("-3")]
+    # str defaults that a validating constructor (IntegerEdit / FloatEdit check str defaults; IntEdit documents
+    # none and is left out) must either refuse or normalise into its alphabet: non-ASCII decimal digits,
+    # letters that case-fold / upper-case to ASCII letters, and spellings float() / Decimal() accept
+    unicode_int = ["\u0663", "\uff11\uff12", "\u00b2", "\u0131", "\u017f", "\u212a", "1_0", " 5", "+5"]
+    unicode_float = ["\u0663", "\uff11.\uff15", "\u00b2", "1_0", " 5", "+5", "nan", "inf", "-inf"]
     out = []
-    for d in defaults_int:
-        if not isinstance(d, Decimal):
+    for d in defaults_int + unicode_int:
+        if not isinstance(d, Decimal) and d not in unicode_int:
             out.append(("IntEdit", {"default": d}))
-        for base in (2, 10, 16):
+        for base in (2, 10, 16, 36):
             for neg in (False, True):
                 out.append(("IntegerEdit", {"default": d, "base": base, "allow_negative": neg}))
-    for d in [None, "", 0, 7, -5, "0", "12", "1.50", "-1.5", "1e5", "1E-7", Decimal("12"), Decimal("1.5"), Decimal("1E+2"), Decimal("0.0000001")]:
+    for d in [None, "", 0, 7, -5, "0", "12", "1.50", "-1.5", "1e5", "1E-7", Decimal("12"), Decimal("1.5"), Decimal("1E+2"), Decimal("0.0000001"), *unicode_float]:
         for sep in (".", ","):
             for neg in (False, True):
                 out.append(("FloatEdit", {"default": d, "decimal_separator": sep, "allow_negative": neg}))
@@ -745,7 +802,10 @@ def numeric_configs(tier):
     shapes = [(2, "any", "left")] if quick else [(2, "any", "left"), (3, "space", "right"), (2, "clip", "center")]
     for W, wrap, align in shapes:
         out.append(num_cfg("intedit", W, wrap, align))
-        for base, neg in ((10, False), (10, True), (16, True), (2, False)):
+        # base 36: the whole digit string "0..9A..Z" is the alphabet (case mappings / substring tests of
+        # non-ASCII letters land in it); base 20: 'I' is a digit (U+0131 upper-cases to it), 'S' is not
+        bases = ((10, False), (10, True), (16, True), (2, False), (36, True)) if (quick or W != 2) else ((10, False), (10, True), (16, True), (2, False), (36, True), (20, False), (30, False))
+        for base, neg in bases:
             out.append(num_cfg("integeredit", W, wrap, align, base=base, neg=neg))
         for sep in (".", ","):
             for neg in (False, True):
@@ -867,7 +927,7 @@ def run(tier="quick", seed=0):
 
     # numeric constructors
     t1 = time.time()
-    chk = Check(f"{ID}/numeric-alphabet-initial", RULES["numeric-alphabet-initial"], True, "IntEdit / IntegerEdit(base 2,10,16; allow_negative) / FloatEdit(separator . and , ; allow_negative) x defaults None, '', ints, numeric strings, Decimals")
+    chk = Check(f"{ID}/numeric-alphabet-initial", RULES["numeric-alphabet-initial"], True, "IntEdit / IntegerEdit(base 2,10,16,36; allow_negative) / FloatEdit(separator . and , ; allow_negative) x defaults None, '', ints, numeric strings, Decimals; for the two validating constructors also str defaults with non-ASCII digits, case-mapping letters (U+0131, U+017F, U+212A), '_', blank, '+', nan/inf")
     with _Utf8():
         for ctor, kw in numeric_initial_cases():
             ok, why, nt, text = numeric_initial_one(ctor, kw)
